@@ -208,9 +208,15 @@ func vfC18FileLines(dir string) ([]string, bool) {
 func vfC18NewBL(dir string, white, configured []string) *BlockList {
 	verifhook.SetBackground(false)
 	cfg := &config.Config{Directory: dir, BlockListDir: filepath.Join(dir, "bl"), Whitelist: white, Blocklist: configured, Nullroute: "0.0.0.0", Nullroutev6: "::"}
-	_ = os.MkdirAll(cfg.BlockListDir, 0o755)
+	if !vfC18FreshInstall {
+		_ = os.MkdirAll(cfg.BlockListDir, 0o755)
+	}
 	return New(cfg)
 }
+
+// vfC18FreshInstall: the list directory does not exist yet when the instance starts (sdns creates it itself, a
+// second after start, in the remote refresh - which the harness keeps switched off).
+var vfC18FreshInstall bool
 
 type vfC18Down struct{ calls int }
 
@@ -534,7 +540,10 @@ func TestVerifC18PersistSeq(t *testing.T) {
 			white = append(white, w)
 			model.white[vfC18Canon(w)] = true
 		}
+		vfC18FreshInstall = rapid.IntRange(0, 3).Draw(rt, "freshinstall") == 0
 		b := vfC18NewBL(dir, white, nil)
+		fresh := vfC18FreshInstall
+		vfC18FreshInstall = false
 		var pool []string
 		for i := 0; i < 5; i++ {
 			pool = append(pool, vfC18GenKey(rt))
@@ -573,6 +582,9 @@ func TestVerifC18PersistSeq(t *testing.T) {
 		vfstat.Eval(U, 1)
 		if restarts > 0 {
 			vfstat.Class(U, "restart")
+		}
+		if fresh {
+			vfstat.Class(U, "list-directory-absent-at-start")
 		}
 		var kinds []string
 		for _, op := range ops {
